@@ -64,7 +64,9 @@ CLAIMED = {
         "Values() returns each entry of the log exactly once, sorted by the configured ordering, every entry after all its predecessors "
         "present in the log, and is a function of the entry set (two replicas with equal entry sets have equal linearisations). Proved "
         "by a loop invariant of the priority traversal (sorted stack, popped >= stacked, reachability closure), fuel sufficiency, and "
-        "an extensionality argument transferring the hash ordering to LastWriteWins on tie-free logs. Tie via history correspondence.",
+        "an extensionality argument transferring the hash ordering to LastWriteWins on tie-free logs. Histories may open replicas with a "
+        "clock of their own (LogOptions.Clock, up to 2^62; premise: largest seed + number of operations < 2^63). Tie via history "
+        "correspondence (seeded clocks included) and scenario monitors on logs opened with entries and a lagging clock.",
    technique="Coq proof (traversal loop invariant, order laws) + differential correspondence vs Go", design="6/C03"),
  "C05": dict(
    text="Theorems (Props/C05.v): every operation of a well-formed history keeps every entry of every replica under the same hash with "
